@@ -849,7 +849,7 @@ pub fn render_aiger(doc: &AigDoc) -> Rendered {
         out.raw(b"\n");
         out.end_item();
         item += 1;
-        code += 2;
+        code = code.wrapping_add(2);
     }
     for &o in a.outputs.iter().chain(&a.bad).chain(&a.constraints) {
         lit_line(&mut out, &mut item, o);
@@ -875,7 +875,7 @@ pub fn render_aiger(doc: &AigDoc) -> Rendered {
             varint(hi.wrapping_sub(lo), &mut b);
             out.tok(&b, Role::Delta, item);
             out.cut_here();
-            code += 2;
+            code = code.wrapping_add(2);
         } else {
             out.tok(o.unwrap_or(0).to_string().as_bytes(), Role::Num, item);
             out.raw(b" ");
